@@ -14,7 +14,13 @@ use std::cell::RefCell;
 use std::sync::atomic::{AtomicBool, AtomicU64, Ordering};
 use std::sync::{Arc, Mutex};
 use std::time::Duration;
-use zipora::compression::{AdaptiveCompressor, AdaptiveConfig, Algorithm, CompressionMode, CompressorFactory, PerformanceRequirements, RealtimeCompressor, RealtimeConfig};
+use zipora::compression::dict_zip::compression_types::{apply_fse_compression, fse_unzip_reference, fse_zip_reference, remove_fse_compression, FseCompressor, FseConfig};
+use zipora::compression::dict_zip::{decode_match, decode_matches, encode_matches, BitReader, LocalMatcherConfig, Match as PzMatch, PaZipCompressor, PaZipCompressorConfig, SuffixArrayDictionary, SuffixArrayDictionaryConfig};
+use zipora::compression::{compress_with_simd_lz77, decompress_with_simd_lz77, SimdLz77Compressor, SimdLz77Config};
+use zipora::compression::realtime::RealtimeCompressorBuilder;
+use zipora::compression::{AdaptiveCompressor, AdaptiveConfig, Algorithm, CompressionMode, Compressor, CompressorFactory, PerformanceRequirements, RealtimeCompressor, RealtimeConfig};
+use zipora::entropy::rans::{ParallelX1, Rans64Encoder};
+use zipora::memory::{SecureMemoryPool, SecurePoolConfig};
 use zipora::verif::time::Instant as VInstant;
 use zsim_core::{CheckSpec, Run, Scenario, Tier};
 
@@ -31,8 +37,8 @@ fn lz4_available() -> bool {
 // ---------------------------------------------------------------------------------------
 // payloads
 
-const KIND_TABLE: [u64; 16] = [0, 1, 2, 3, 4, 5, 5, 6, 6, 7, 7, 7, 8, 3, 2, 6];
-const KIND_NAME: [&str; 9] = ["empty", "one", "n63", "n64", "n65", "zeros", "text", "random", "few"];
+const KIND_TABLE: [u64; 16] = [0, 1, 2, 3, 4, 5, 5, 6, 6, 7, 7, 7, 8, 3, 9, 10];
+const KIND_NAME: [&str; 11] = ["empty", "one", "n63", "n64", "n65", "zeros", "text", "random", "few", "pow2", "large"];
 
 /// Payload number `id` of a run.  Unique within the run (the id is in the first bytes) except
 /// for the empty payload.  Bytes 2..4 are zero whenever they exist: a front end that hands
@@ -50,6 +56,10 @@ fn payload(id: u64, sel: u64, x: u64) -> (Vec<u8>, &'static str) {
         5 => 100 + (x % 900) as usize,
         6 => 200 + (x % 400) as usize,
         7 => 70 + (x % 2000) as usize,
+        // lengths that are powers of two, and payloads past the 10 000 B where
+        // AdaptiveCompressor::calculate_hash stops sampling one byte in ten
+        9 => 128 << (x % 6),
+        10 => [9_999usize, 10_000, 10_001, 10_010, 16_384, 20_000][(x % 6) as usize],
         _ => 2 + (x % 7) as usize,
     };
     let mut v = Vec::with_capacity(len);
@@ -125,6 +135,18 @@ struct Out {
     path: &'static str,
     /// algorithm configured in the front end when it was produced
     algo: String,
+    /// may the output's bytes appear in event and detail text?  (HuffmanCompressor serialises its
+    /// code table in `HashMap` iteration order: the bytes of a frame differ from process to
+    /// process although its length and meaning do not)
+    show_bytes: bool,
+}
+
+fn shown(o: &Out) -> String {
+    if o.show_bytes {
+        head(&o.bytes)
+    } else {
+        "bytes not shown".to_string()
+    }
 }
 
 /// Compare one decode against the model.  Returns (class, site suffix, detail) on mismatch.
@@ -136,17 +158,18 @@ fn judge(front: &str, o: &Out, epoch_now: u64, algo_now: &str, got: &Result<Vec<
             class.to_string(),
             format!("{}.{}.wrong_bytes", front, o.path),
             format!(
-                "payload p{} ({} B, {}) compressed under {} via {} to {} B ({}); decompress under {} returned Ok with {} different bytes ({})",
+                "payload p{} ({} B, {}) compressed under {} via {} to {} B ({}); decompress under {} returned Ok with {} different bytes ({}), first difference at byte {}",
                 o.id,
                 o.payload.len(),
                 head(&o.payload),
                 o.algo,
                 o.path,
                 o.bytes.len(),
-                head(&o.bytes),
+                shown(o),
                 algo_now,
                 b.len(),
-                head(b)
+                head(b),
+                b.iter().zip(o.payload.iter()).position(|(x, y)| x != y).unwrap_or(b.len().min(o.payload.len()))
             ),
         )),
         Err(e) => Some((
@@ -160,7 +183,7 @@ fn judge(front: &str, o: &Out, epoch_now: u64, algo_now: &str, got: &Result<Vec<
                 o.algo,
                 o.path,
                 o.bytes.len(),
-                head(&o.bytes),
+                shown(o),
                 algo_now,
                 e
             ),
@@ -250,6 +273,10 @@ impl Scenario for RtScenario {
         let deadlines_off = cfg.chance(1, 4);
         let jump_den = *cfg.pick(&[2u64, 4, 8]);
         let planned = 3 + cfg.below(8);
+        // how the compressor is built: RealtimeCompressor::new(config), the builder, or with_mode
+        // (which takes every other setting from RealtimeConfig::default(): deadlines and fallback on)
+        let ctor = cfg.biased_zero(3, 1, 3);
+        let (no_fallback, deadlines_off) = if ctor == 2 { (false, false) } else { (no_fallback, deadlines_off) };
         let mut ops = cx.src.ops("ops", planned);
         let mut per_client: Vec<Vec<[u64; 4]>> = vec![vec![]; nclients];
         let mut n_ops = 0u64;
@@ -260,7 +287,15 @@ impl Scenario for RtScenario {
         let family = self.family;
         let base_mode = self.mode;
         let config = RealtimeConfig { mode: base_mode, max_concurrent, enable_deadlines: !deadlines_off, fallback_on_timeout: !no_fallback, batch_size: 10, batch_timeout: Duration::from_millis(1) };
-        cx.ev(format!("RealtimeCompressor mode={} max_concurrent={} enable_deadlines={} fallback_on_timeout={} clients={}", mode_name(base_mode), max_concurrent, !deadlines_off, !no_fallback, nclients));
+        cx.ev(format!(
+            "RealtimeCompressor{} mode={} max_concurrent={} enable_deadlines={} fallback_on_timeout={} clients={}",
+            ["::new", "Builder", "::with_mode"][ctor as usize],
+            mode_name(base_mode),
+            if ctor == 2 { "default".to_string() } else { max_concurrent.to_string() },
+            !deadlines_off,
+            !no_fallback,
+            nclients
+        ));
 
         let clock = Arc::new(Clock { armed: AtomicBool::new(false), reads: AtomicU64::new(0), jumps: Mutex::new(vec![]) });
         if family == Family::ClockJump {
@@ -282,7 +317,12 @@ impl Scenario for RtScenario {
         }
 
         let rt = tokio::runtime::Builder::new_current_thread().enable_all().start_paused(true).build().expect("tokio runtime");
-        let rc = match RealtimeCompressor::new(config) {
+        let made = match ctor {
+            0 => RealtimeCompressor::new(config),
+            1 => RealtimeCompressorBuilder::new().mode(base_mode).max_concurrent(max_concurrent).enable_deadlines(!deadlines_off).fallback_on_timeout(!no_fallback).batch_size(10).build(),
+            _ => RealtimeCompressor::with_mode(base_mode),
+        };
+        let rc = match made {
             Ok(r) => r,
             Err(e) => {
                 cx.ev(format!("RealtimeCompressor::new refused: {}", e));
@@ -413,7 +453,7 @@ impl Scenario for RtScenario {
                                 s.cx.cell(format!("realtime/{}/{}/{}", mode_name(cur), kind, path));
                                 s.cx.ev(format!("  -> Ok {} B ({}) via {}{}", bytes.len(), head(&bytes), path, clk));
                                 let epoch = s.epoch;
-                                s.outs.push(Out { id, payload: p, bytes, epoch, path, algo });
+                                s.outs.push(Out { id, payload: p, bytes, epoch, path, algo, show_bytes: true });
                                 let idx = s.outs.len() - 1;
                                 drop(s);
                                 check(idx, "right away").await;
@@ -426,16 +466,24 @@ impl Scenario for RtScenario {
                     }
                     // compress_batch of 1..3 payloads
                     3 => {
-                        let n = 1 + (o[1] % 3) as usize;
+                        // 1..3 items as before; every eighth batch has 0, 4 or 5
+                        let n = if o[1] % 8 == 7 { [0usize, 4, 5, 0][((o[1] / 8) % 4) as usize] } else { 1 + (o[1] % 3) as usize };
                         let mut ps: Vec<(Vec<u8>, &'static str, u64)> = vec![];
                         {
                             let mut s = st.borrow_mut();
                             for j in 0..n {
                                 let id = s.next_id;
                                 s.next_id += 1;
-                                let (p, kind) = payload(id, o[2] >> (4 * j), o[2].wrapping_mul(31).wrapping_add(j as u64));
+                                // an item may be the previous item of the same batch again, or differ from it in one byte
+                                let (p, kind) = match ps.last() {
+                                    Some(prev) if (o[3] >> (2 * j)) % 4 == 3 => variant(&prev.0, o[3] >> 10, o[2]),
+                                    _ => payload(id, o[2] >> (4 * j), o[2].wrapping_mul(31).wrapping_add(j as u64)),
+                                };
                                 ps.push((p, kind, id));
                             }
+                        }
+                        if n == 0 {
+                            st.borrow_mut().cx.probe("empty_batch");
                         }
                         let fb0 = rc.stats().fallback_operations;
                         let (cur, algo) = {
@@ -482,7 +530,7 @@ impl Scenario for RtScenario {
                                     s.cx.probe(&format!("path_{}", path));
                                     s.cx.cell(format!("realtime/{}/batch-{}/{}", mode_name(cur), kind, path));
                                     let epoch = s.epoch;
-                                    s.outs.push(Out { id, payload: p, bytes, epoch, path, algo: algo.clone() });
+                                    s.outs.push(Out { id, payload: p, bytes, epoch, path, algo: algo.clone(), show_bytes: true });
                                     idxs.push(s.outs.len() - 1);
                                 }
                                 drop(s);
@@ -582,13 +630,31 @@ impl Scenario for AdScenario {
             aggressive_learning: cfg.chance(1, 2),
             test_sample_size: 10,
         };
-        let planned = 3 + cfg.below(10);
+        // histories long enough for the evaluation windows (>= 5 measurements per algorithm,
+        // every fifth evaluation under aggressive learning) to fill
+        let planned = 3 + cfg.below(16);
+        let req_kind = cfg.below(4);
+        let default_ctor = cfg.chance(1, 6);
+        let config = if default_ctor { AdaptiveConfig::default() } else { config };
+        let requirements = match req_kind {
+            0 => PerformanceRequirements::default(),
+            1 => PerformanceRequirements { max_latency: Duration::ZERO, ..Default::default() },
+            2 => PerformanceRequirements { speed_vs_quality: 1.0, target_ratio: 0.0, ..Default::default() },
+            _ => PerformanceRequirements { speed_vs_quality: 0.0, max_memory: 0, ..Default::default() },
+        };
         let mut ops = cx.src.ops("ops", planned);
         cx.ev(format!(
-            "AdaptiveCompressor learning_window={} min_operations={} evaluation_interval={} switch_threshold={} aggressive_learning={}",
-            config.learning_window, config.min_operations, config.evaluation_interval, config.switch_threshold, config.aggressive_learning
+            "AdaptiveCompressor{} learning_window={} min_operations={} evaluation_interval={} switch_threshold={} aggressive_learning={} requirements={}",
+            if default_ctor { "::default_with_requirements" } else { "::new" },
+            config.learning_window,
+            config.min_operations,
+            config.evaluation_interval,
+            config.switch_threshold,
+            config.aggressive_learning,
+            ["default", "max_latency=0", "quality-only", "speed-only, max_memory=0"][req_kind as usize]
         ));
-        let mut ac = match AdaptiveCompressor::new(config, PerformanceRequirements::default()) {
+        let made = if default_ctor { AdaptiveCompressor::default_with_requirements(requirements.clone()) } else { AdaptiveCompressor::new(config, requirements.clone()) };
+        let mut ac = match made {
             Ok(a) => a,
             Err(e) => {
                 cx.ev(format!("AdaptiveCompressor::new refused: {}", e));
@@ -598,7 +664,9 @@ impl Scenario for AdScenario {
         // The compressor starts on Lz4 (an optional cargo feature).  Part of the configuration of
         // a run is the algorithm it is put on *before* any payload is compressed; that is not a
         // switch in the sense of the oracle (no output exists yet).
-        let initial = cfg.biased_zero(7, 2, 3) as usize;
+        // (without the lz4 feature a compressor left on its initial algorithm refuses every call:
+        // keep that honest-refusal configuration, but rarely)
+        let initial = if lz4_available() { cfg.biased_zero(7, 2, 3) } else { cfg.biased_zero(7, 9, 10) } as usize;
         if initial > 0 {
             let a = AD_ALGOS[initial - 1];
             match ac.set_algorithm(a) {
@@ -613,10 +681,13 @@ impl Scenario for AdScenario {
         let mut n_ops = 0u64;
         while let Some(o) = ops.next() {
             n_ops += 1;
-            let nkinds = if self.switch { 7 } else { 6 };
+            let nkinds = if self.switch { 9 } else { 8 };
             let k = o[0] % nkinds;
             let algo_now = format!("{:?}", ac.current_algorithm());
             let mut to_check: Option<(usize, &str)> = None;
+            // half of the calls go through the `Compressor` trait object (how HybridCompressor-like
+            // containers and the blob stores hold a compressor)
+            let via_trait = (o[3] / 16) % 2 == 1;
             match k {
                 0 | 1 | 2 => {
                     let id = next_id;
@@ -628,12 +699,13 @@ impl Scenario for AdScenario {
                     if kind.ends_with("changed") || kind == "same-again" {
                         cx.probe("payload_derived_from_previous");
                     }
-                    cx.ev(format!("compress p{}({} B, {}) under {}", id, p.len(), kind, algo_now));
-                    match ac.compress(&p) {
+                    cx.ev(format!("compress p{}({} B, {}) under {}{}", id, p.len(), kind, algo_now, if via_trait { " via dyn Compressor" } else { "" }));
+                    let r = if via_trait { (&ac as &dyn Compressor).compress(&p) } else { ac.compress(&p) };
+                    match r {
                         Ok(bytes) => {
                             cx.ev(format!("  -> Ok {} B ({})", bytes.len(), head(&bytes)));
                             cx.cell(format!("adaptive/{}/{}", algo_now, kind));
-                            outs.push(Out { id, payload: p, bytes, epoch, path: "configured", algo: algo_now.clone() });
+                            outs.push(Out { id, payload: p, bytes, epoch, path: "configured", algo: algo_now.clone(), show_bytes: true });
                             to_check = Some((outs.len() - 1, "right away"));
                         }
                         Err(e) => {
@@ -664,6 +736,28 @@ impl Scenario for AdScenario {
                     cx.probe("train");
                     cx.ev(format!("train on {} samples ({:?} B) -> {}", n, samples.iter().map(|s| s.0.len()).collect::<Vec<_>>(), if r.is_ok() { "Ok" } else { "Err" }));
                 }
+                6 => {
+                    // Compressor::estimate_ratio (default method: compresses the first 1024 bytes of a
+                    // longer payload through the front end, which counts as an operation of the
+                    // learning history) and is_suitable, between real calls
+                    let (p, kind) = match outs.last() {
+                        Some(prev) if o[3] % 2 == 0 => (prev.payload.clone(), "payload of the last output"),
+                        _ => payload(2000 + next_id, o[1], o[2]),
+                    };
+                    let d: &dyn Compressor = &ac;
+                    let ratio = d.estimate_ratio(&p);
+                    let suitable = d.is_suitable(&requirements, p.len());
+                    cx.probe("estimate_ratio");
+                    if p.len() > 1024 {
+                        cx.probe("estimate_ratio_compressed_a_sample");
+                    }
+                    cx.ev(format!("estimate_ratio({} B, {}) -> {}; is_suitable -> {}; algorithm() -> {:?}", p.len(), kind, if ratio.is_finite() { "finite" } else { "not finite" }, suitable, d.algorithm()));
+                }
+                7 => {
+                    let st = ac.stats();
+                    let pr = ac.profiles();
+                    cx.ev(format!("stats: operations={} bytes_processed={}; profiles: {}", st.operations, st.bytes_processed, pr.len()));
+                }
                 _ => {
                     let mut a = AD_ALGOS[(o[1] % AD_ALGOS.len() as u64) as usize];
                     if a == Algorithm::Lz4 && !lz4_available() {
@@ -684,7 +778,7 @@ impl Scenario for AdScenario {
             }
             if let Some((idx, when)) = to_check {
                 let algo_now = format!("{:?}", ac.current_algorithm());
-                let r = ac.decompress(&outs[idx].bytes).map_err(|e| e.to_string());
+                let r = if via_trait { (&ac as &dyn Compressor).decompress(&outs[idx].bytes) } else { ac.decompress(&outs[idx].bytes) }.map_err(|e| e.to_string());
                 checked += 1;
                 let verdict = judge("AdaptiveCompressor", &outs[idx], epoch, &algo_now, &r);
                 let txt = match (&r, &verdict) {
@@ -705,24 +799,1158 @@ impl Scenario for AdScenario {
     }
 }
 
+// =======================================================================================
+// Part 2 — the codecs behind the front ends: every compressor of the factory (trained on a
+// corpus that need not resemble the payload), the Hybrid raw fallback, PA-Zip, the PA-Zip match
+// codec and the FSE stage.  These are functions of (training corpus, payload, call history on
+// the object); the histories below keep the *relations* between corpus, consecutive payloads
+// and earlier outputs varied (same again, one byte changed, slice of the corpus, corpus plus a
+// foreign byte, an earlier output fed back in as a payload, boundary lengths).
+
+struct Xs(u64);
+impl Xs {
+    fn new(x: u64) -> Xs {
+        Xs(x.wrapping_mul(0x9E37_79B9_7F4A_7C15) | 1)
+    }
+    fn next(&mut self) -> u64 {
+        let mut s = self.0;
+        s ^= s << 13;
+        s ^= s >> 7;
+        s ^= s << 17;
+        self.0 = s;
+        s >> 11
+    }
+    fn byte(&mut self) -> u8 {
+        (self.next() >> 9) as u8
+    }
+}
+
+const CORPUS_NAME: [&str; 7] = ["text", "few", "single", "all256", "random", "records", "runs"];
+
+/// Training corpus / payload body of one of seven shapes.
+fn corpus(kind: usize, len: usize, x: u64) -> Vec<u8> {
+    let text = b"the quick brown fox jumps over the lazy dog; ";
+    let mut r = Xs::new(x);
+    let mut v = Vec::with_capacity(len);
+    match kind % 7 {
+        0 => {
+            let off = (x % text.len() as u64) as usize;
+            for i in 0..len {
+                v.push(text[(off + i) % text.len()]);
+            }
+        }
+        1 => {
+            for _ in 0..len {
+                v.push(b"abc"[(r.next() % 3) as usize]);
+            }
+        }
+        2 => v.resize(len, (x >> 4) as u8),
+        3 => {
+            for i in 0..len {
+                v.push((x as u8).wrapping_add(i as u8));
+            }
+        }
+        4 => {
+            for _ in 0..len {
+                v.push(r.byte());
+            }
+        }
+        5 => {
+            let mut n = 0u32;
+            while v.len() < len {
+                let rec = [b'I', b'D', n as u8, (n >> 8) as u8, 0, 0, b'v', b'a', b'l', b'u', b'e', b'=', x as u8, 0, 0, b'\n'];
+                for b in rec {
+                    if v.len() < len {
+                        v.push(b);
+                    }
+                }
+                n += 1;
+            }
+        }
+        _ => {
+            while v.len() < len {
+                let b = b'A' + r.byte() % 5;
+                let run = 1 + (r.next() % 40) as usize;
+                for _ in 0..run {
+                    if v.len() < len {
+                        v.push(b);
+                    }
+                }
+            }
+        }
+    }
+    v
+}
+
+const BOUNDARY_LEN: [usize; 38] =
+    [2, 3, 4, 5, 6, 7, 8, 15, 16, 17, 31, 32, 33, 34, 35, 36, 63, 64, 65, 127, 128, 129, 255, 256, 257, 258, 259, 260, 511, 512, 513, 1023, 1024, 1025, 2047, 2048, 4096, 4097];
+
+/// A byte that does not occur in `t` (None when all 256 occur).
+fn foreign_byte(t: &[u8], x: u64) -> Option<u8> {
+    let mut seen = [false; 256];
+    for &b in t {
+        seen[b as usize] = true;
+    }
+    (0..256usize).map(|i| ((i as u64 + x) % 256) as u8).find(|&b| !seen[b as usize])
+}
+
+/// Payload of a Part-2 history.  `o` are the op's numbers 1..3 (each < 2^20).  Nothing here is
+/// unique per payload on purpose: two payloads of a run may be equal, share a prefix, or differ
+/// in one byte; a payload may be the training corpus, a piece of it, or an earlier output.
+fn pay2(o: [u64; 4], training: &[u8], prev: Option<&[u8]>, prev_out: Option<&[u8]>, big: usize) -> (Vec<u8>, String) {
+    let sel = o[1] % 22;
+    let x = o[2];
+    let y = o[3];
+    let blen = BOUNDARY_LEN[(x % BOUNDARY_LEN.len() as u64) as usize];
+    match sel {
+        0 => (vec![], "empty".into()),
+        1 => (vec![x as u8], "one".into()),
+        2 | 3 | 4 => {
+            let k = (y % 7) as usize;
+            (corpus(k, blen, x >> 6), format!("{}-boundary", CORPUS_NAME[k]))
+        }
+        5 => (corpus(0, 200 + (x % 400) as usize, y), "text".into()),
+        6 => (corpus(4, 70 + (x % 2000) as usize, y), "random".into()),
+        7 => (corpus(2, 100 + (x % 900) as usize, 0), "zeros".into()),
+        8 if training.len() <= big => (training.to_vec(), "corpus-exact".into()),
+        8 | 9 => {
+            // (a slice of at most `big` bytes from anywhere in the corpus; x and y are below 2^20)
+            let n = training.len();
+            let a = ((x as usize) * 7919 + (y as usize)) % (n + 1);
+            let l = (y as usize) % (n - a + 1).min(big + 1);
+            (training[a..a + l].to_vec(), "corpus-slice".into())
+        }
+        10 => {
+            let mut v = training[..training.len().min(big)].to_vec();
+            match foreign_byte(training, x) {
+                Some(b) => {
+                    let pos = (y as usize) % (v.len() + 1);
+                    v.insert(pos, b);
+                    (v, "corpus-plus-foreign-byte".into())
+                }
+                None => (v, "corpus-exact".into()),
+            }
+        }
+        11 => {
+            let mut v = training.to_vec();
+            v.extend_from_slice(training);
+            v.truncate(big);
+            (v, "corpus-twice".into())
+        }
+        12 => {
+            // the corpus' alphabet under a different distribution
+            let mut r = Xs::new(x);
+            let n = 1 + (y % 600) as usize;
+            let v = if training.is_empty() { vec![] } else { (0..n).map(|_| training[(r.next() % training.len() as u64) as usize]).collect() };
+            (v, "corpus-alphabet-shuffled".into())
+        }
+        13 | 14 => match prev {
+            Some(p) => {
+                let (v, k) = variant_free(p, y, x);
+                (v, k.to_string())
+            }
+            None => (corpus(0, blen, x), "text-boundary".into()),
+        },
+        15 => match prev_out {
+            Some(b) if b.len() <= big => (b.to_vec(), "earlier-output-as-payload".into()),
+            _ => (corpus(5, blen, x), "records-boundary".into()),
+        },
+        16 => {
+            let b = if y % 2 == 0 && !training.is_empty() { training[0] } else { y as u8 };
+            (vec![b; blen], "run-boundary".into())
+        }
+        17 => {
+            let (a, b) = (x as u8, (x >> 8) as u8);
+            ((0..blen).map(|i| if i % 2 == 0 { a } else { b }).collect(), "two-symbols".into())
+        }
+        18 => (corpus(3, if y % 2 == 0 { 256 } else { 512 }, x), "all-256-values".into()),
+        19 => {
+            // a long run followed by noise (RLE then literals)
+            let mut v = vec![x as u8; 30 + (y % 300) as usize];
+            v.extend_from_slice(&corpus(4, (x % 64) as usize, y));
+            (v, "run-then-noise".into())
+        }
+        20 => {
+            // a text whose second half repeats the first (local matches at a distance)
+            let half = corpus(0, 20 + (x % 300) as usize, y);
+            let mut v = half.clone();
+            v.extend_from_slice(&corpus(4, (y % 9) as usize, x));
+            v.extend_from_slice(&half);
+            (v, "repeat-at-distance".into())
+        }
+        _ => {
+            if big > 5000 && y % 4 == 0 {
+                let n = [65535usize, 65536, 65537, 70000, 9000, 33000][(x % 6) as usize].min(big);
+                (corpus((y / 4 % 7) as usize, n, x), "large".into())
+            } else {
+                (corpus(6, 300 + (x % 3000) as usize % big.max(1), y), "runs".into())
+            }
+        }
+    }
+}
+
+/// Like `variant`, without the reserved bytes 2..4.
+fn variant_free(prev: &[u8], sel: u64, x: u64) -> (Vec<u8>, &'static str) {
+    let mut v = prev.to_vec();
+    let n = v.len();
+    match (sel % 5, n) {
+        (0, _) | (_, 0) => (v, "same-again"),
+        (1, _) => {
+            v[n - 1] ^= 0xff;
+            (v, "last-byte-changed")
+        }
+        (2, _) => {
+            v[(x as usize) % n] ^= 1 + ((x >> 12) % 255) as u8;
+            (v, "one-byte-changed")
+        }
+        (3, _) => {
+            v.truncate(n - 1);
+            (v, "last-byte-dropped")
+        }
+        _ => {
+            v.push(x as u8);
+            (v, "one-byte-appended")
+        }
+    }
+}
+
+fn report(cx: &mut Run, front: &str, o: &Out, epoch: u64, algo_now: &str, got: &Result<Vec<u8>, String>, when: &str) -> bool {
+    report_as(cx, front, o, epoch, algo_now, got, when, None)
+}
+
+/// `class`: Some(..) when the decode went through another handle than the one that compressed.
+fn report_as(cx: &mut Run, front: &str, o: &Out, epoch: u64, algo_now: &str, got: &Result<Vec<u8>, String>, when: &str, class: Option<&str>) -> bool {
+    let verdict = judge(front, o, epoch, algo_now, got).map(|(c, s, d)| (class.map(|x| x.to_string()).unwrap_or(c), s, d));
+    let txt = match (got, &verdict) {
+        (_, None) => "Ok, equals payload".to_string(),
+        (Ok(b), Some(_)) => format!("Ok but {} B differ from payload", b.len()),
+        (Err(e), _) => format!("Err({})", e),
+    };
+    cx.ev(format!("  decompress out(p{}) {} -> {}", o.id, when, txt));
+    if let Some((class, site, detail)) = verdict {
+        cx.violate(&class, &site, detail);
+        return false;
+    }
+    true
+}
+
+// ---------------------------------------------------------------------------------------
+// CompressorFactory::create(algorithm, training)
+
+/// A RansCompressor frame starts with 256 stored frequencies.  `decompress` rebuilds its
+/// decoding table with `Rans64Encoder::new(&stored)`, which normalises its argument again.  Is
+/// the stored table a fixed point of that normalisation?  (The answer only labels the finding.)
+fn rans_table_is_stable(frame: &[u8]) -> bool {
+    if frame.len() < 1024 {
+        return true;
+    }
+    let mut f = [0u32; 256];
+    for i in 0..256 {
+        f[i] = u32::from_le_bytes([frame[4 * i], frame[4 * i + 1], frame[4 * i + 2], frame[4 * i + 3]]);
+    }
+    match Rans64Encoder::<ParallelX1>::new(&f) {
+        Ok(e) => (0..256usize).all(|i| e.get_symbol(i as u8).freq == f[i]),
+        Err(_) => true,
+    }
+}
+
+#[derive(Clone, Copy, PartialEq)]
+enum FAlgo {
+    None,
+    Lz4,
+    Zstd,
+    Huffman,
+    Rans,
+    Dictionary,
+    SimdLz77,
+    Hybrid,
+    /// whatever `CompressorFactory::select_best(requirements, corpus)` answers
+    SelectBest,
+}
+
+impl FAlgo {
+    fn name(self) -> &'static str {
+        match self {
+            FAlgo::None => "None",
+            FAlgo::Lz4 => "Lz4",
+            FAlgo::Zstd => "Zstd",
+            FAlgo::Huffman => "Huffman",
+            FAlgo::Rans => "Rans",
+            FAlgo::Dictionary => "Dictionary",
+            FAlgo::SimdLz77 => "SimdLz77",
+            FAlgo::Hybrid => "Hybrid",
+            FAlgo::SelectBest => "select_best",
+        }
+    }
+    fn trained(self) -> bool {
+        matches!(self, FAlgo::Huffman | FAlgo::Rans | FAlgo::Dictionary | FAlgo::Hybrid | FAlgo::SelectBest)
+    }
+    /// the back-reference search of DictCompressor is quadratic in the payload
+    fn big(self) -> usize {
+        match self {
+            FAlgo::Dictionary | FAlgo::Hybrid | FAlgo::SelectBest => 2600,
+            _ => 70_000,
+        }
+    }
+}
+
+struct FactoryScenario {
+    algo: FAlgo,
+    /// only payloads that some component compressor shrinks (long and repetitive), so that the
+    /// histories of `factory/Hybrid/compressible` run past the raw fallback
+    compressible: bool,
+}
+
+/// Replace every byte that does not occur in `alphabet` by one that does (keeps the structure of
+/// the payload, makes it encodable by a codec trained on `alphabet`).
+fn project(p: &mut [u8], alphabet: &[u8]) {
+    let mut seen = [false; 256];
+    let mut syms: Vec<u8> = vec![];
+    for &b in alphabet {
+        if !seen[b as usize] {
+            seen[b as usize] = true;
+            syms.push(b);
+        }
+    }
+    if syms.is_empty() {
+        return;
+    }
+    for b in p.iter_mut() {
+        if !seen[*b as usize] {
+            *b = syms[*b as usize % syms.len()];
+        }
+    }
+}
+
+/// Long repetitive payloads over the corpus.
+fn pay_compressible(o: [u64; 4], training: &[u8], prev: Option<&[u8]>) -> (Vec<u8>, String) {
+    let x = o[2];
+    let y = o[3];
+    match o[1] % 8 {
+        0 => (corpus(0, 1500 + (x % 1000) as usize, y), "long-text".into()),
+        1 => (corpus(2, 1200 + (x % 1300) as usize, y), "long-run".into()),
+        2 => (corpus(6, 1500 + (x % 1000) as usize, y), "long-runs".into()),
+        3 => (corpus(1, 1500 + (x % 1000) as usize, y), "long-few".into()),
+        4 => (corpus(5, 1500 + (x % 1000) as usize, y), "long-records".into()),
+        5 => {
+            let mut v = vec![];
+            while v.len() < 1500 + (x % 1000) as usize && !training.is_empty() {
+                v.extend_from_slice(training);
+            }
+            v.truncate(2600);
+            (v, "corpus-repeated".into())
+        }
+        _ => match prev {
+            Some(p) => {
+                let (v, k) = variant_free(p, y, x);
+                (v, k.to_string())
+            }
+            None => (corpus(0, 2000, x), "long-text".into()),
+        },
+    }
+}
+
+const TRAIN_LEN: [usize; 10] = [300, 1, 2, 3, 16, 64, 256, 257, 1000, 40];
+
+impl Scenario for FactoryScenario {
+    fn name(&self) -> String {
+        if self.compressible {
+            format!("factory/{}/compressible", self.algo.name())
+        } else {
+            format!("factory/{}", self.algo.name())
+        }
+    }
+    fn budget(&self, tier: Tier) -> u64 {
+        match (tier, self.algo) {
+            (Tier::Quick, FAlgo::Hybrid) if self.compressible => 600,
+            (Tier::Thorough, FAlgo::Hybrid) if self.compressible => 30_000,
+            (Tier::Quick, FAlgo::Dictionary | FAlgo::Hybrid) => 1200,
+            (Tier::Quick, FAlgo::SelectBest) => 800,
+            (Tier::Quick, _) => 1500,
+            (Tier::Thorough, FAlgo::Dictionary | FAlgo::Hybrid | FAlgo::SelectBest) => 60_000,
+            (Tier::Thorough, _) => 90_000,
+        }
+    }
+    fn run(&self, cx: &mut Run) {
+        zsim_core::hooks::reset();
+        let cfg = cx.src.chan("cfg");
+        let tk = cfg.below(7) as usize;
+        // (compressible: corpora with a small alphabet, so that the trained components shrink
+        // the projected payloads)
+        let tk = if self.compressible { [0usize, 1, 5, 6, 0, 1, 5][tk] } else { tk };
+        let tlen = *cfg.pick(&TRAIN_LEN);
+        let tx = cfg.below(1 << 16);
+        let level = *cfg.pick(&[3i32, 1, 9, 19, 0, -1, 22]);
+        let pass_training = self.algo.trained() || cfg.chance(1, 2);
+        // trained codecs refuse symbols they have not seen: in half of their runs every payload
+        // is projected onto the corpus' alphabet, so that the histories get past the first call
+        let projected = self.algo.trained() && (cfg.chance(1, 2) || self.compressible);
+        let tlen = if self.compressible { tlen.max(16) } else { tlen };
+        let planned = 3 + cfg.below(10);
+        let mut ops = cx.src.ops("ops", planned);
+        let training = corpus(tk, tlen, tx);
+        let algorithm = match self.algo {
+            FAlgo::None => Algorithm::None,
+            FAlgo::Lz4 => Algorithm::Lz4,
+            FAlgo::Zstd => Algorithm::Zstd(level),
+            FAlgo::Huffman => Algorithm::Huffman,
+            FAlgo::Rans => Algorithm::Rans,
+            FAlgo::Dictionary => Algorithm::Dictionary,
+            FAlgo::SimdLz77 => Algorithm::SimdLz77,
+            FAlgo::Hybrid => Algorithm::Hybrid,
+            FAlgo::SelectBest => {
+                let k = cfg.below(4);
+                let req = match k {
+                    0 => PerformanceRequirements::default(),
+                    1 => PerformanceRequirements { speed_vs_quality: 1.0, ..Default::default() },
+                    2 => PerformanceRequirements { speed_vs_quality: 0.0, max_latency: Duration::from_nanos(1), ..Default::default() },
+                    _ => PerformanceRequirements { max_memory: 1, speed_vs_quality: 0.9, ..Default::default() },
+                };
+                let a = CompressorFactory::select_best(&req, &training);
+                cx.ev(format!("CompressorFactory::select_best({}, corpus) -> {:?}", ["default", "quality-only", "speed-only, 1 ns", "max_memory=1"][k as usize], a));
+                cx.cell(format!("factory/select_best/{:?}", a));
+                a
+            }
+        };
+        let algo_txt = format!("{:?}", algorithm);
+        cx.ev(format!(
+            "CompressorFactory::create({}, {}) training corpus: {} x {} B ({}){}",
+            algo_txt,
+            if pass_training { "Some" } else { "None" },
+            CORPUS_NAME[tk],
+            tlen,
+            head(&training),
+            if projected { "; payloads projected onto the corpus' alphabet" } else { "" }
+        ));
+        let c = match CompressorFactory::create(algorithm, if pass_training { Some(&training) } else { None }) {
+            Ok(c) => c,
+            Err(e) => {
+                cx.probe("create_refused");
+                cx.ev(format!("  -> refused: {}", e));
+                return;
+            }
+        };
+        cx.ev(format!("  -> Ok, algorithm() = {:?}", c.algorithm()));
+        let front = match algorithm {
+            Algorithm::Hybrid => "Factory.Hybrid".to_string(),
+            Algorithm::Zstd(_) if self.algo == FAlgo::SelectBest => "Factory.Zstd".to_string(),
+            a if self.algo == FAlgo::SelectBest => format!("Factory.{:?}", a),
+            _ => format!("Factory.{}", self.algo.name()),
+        };
+        // HuffmanCompressor frames carry the code table in HashMap iteration order
+        let show_bytes = !matches!(algorithm, Algorithm::Huffman | Algorithm::Hybrid);
+        let mut outs: Vec<Out> = vec![];
+        let mut checked = 0u64;
+        let mut n_ops = 0u64;
+        while let Some(o) = ops.next() {
+            n_ops += 1;
+            let idx = match o[0] % 6 {
+                0 | 1 | 2 | 3 => {
+                    let id = outs.len() as u64;
+                    let prev_out = if show_bytes { outs.last().map(|x| x.bytes.as_slice()) } else { None };
+                    let (mut p, kind) = if self.compressible {
+                        pay_compressible(o, &training, outs.last().map(|x| x.payload.as_slice()))
+                    } else {
+                        pay2(o, &training, outs.last().map(|x| x.payload.as_slice()), prev_out, self.algo.big())
+                    };
+                    if projected {
+                        project(&mut p, &training);
+                    }
+                    cx.ev(format!("compress p{}({} B, {}, {})", id, p.len(), kind, head(&p)));
+                    match c.compress(&p) {
+                        Ok(bytes) => {
+                            // what the frame says compress chose
+                            let path = if algorithm == Algorithm::Hybrid && !bytes.is_empty() {
+                                if bytes[1..] == p[..] {
+                                    "raw_fallback"
+                                } else {
+                                    match bytes[0] {
+                                        0 => "chose_huffman",
+                                        1 if rans_table_is_stable(&bytes[1..]) => "chose_rans",
+                                        1 => "chose_rans_stored_table_renormalises",
+                                        2 => "chose_dictionary",
+                                        _ => "chose_unknown",
+                                    }
+                                }
+                            } else if self.algo == FAlgo::Rans && !bytes.is_empty() {
+                                if rans_table_is_stable(&bytes) {
+                                    "stored_table_stable"
+                                } else {
+                                    "stored_table_renormalises"
+                                }
+                            } else if p.is_empty() {
+                                "empty"
+                            } else if bytes.len() >= p.len() {
+                                "not_shrunk"
+                            } else {
+                                "shrunk"
+                            };
+                            cx.probe(&format!("path_{}", path));
+                            cx.probe(&format!("payload_{}", kind));
+                            cx.cell(format!("factory/{}/{}/{}/{}", self.algo.name(), CORPUS_NAME[tk], kind, path));
+                            let o = Out { id, payload: p, bytes, epoch: 0, path, algo: algo_txt.clone(), show_bytes };
+                            cx.ev(format!("  -> Ok {} B ({}) {}", o.bytes.len(), shown(&o), path));
+                            outs.push(o);
+                            Some((outs.len() - 1, "right away"))
+                        }
+                        Err(e) => {
+                            cx.probe("compress_refused");
+                            cx.ev(format!("  -> refused: {}", e));
+                            None
+                        }
+                    }
+                }
+                _ => {
+                    if outs.is_empty() {
+                        None
+                    } else {
+                        Some(((o[1] as usize) % outs.len(), "later"))
+                    }
+                }
+            };
+            if let Some((idx, when)) = idx {
+                let r = c.decompress(&outs[idx].bytes).map_err(|e| e.to_string());
+                checked += 1;
+                if !report(cx, &front, &outs[idx], 0, &algo_txt, &r, when) {
+                    break;
+                }
+            }
+        }
+        cx.steps = n_ops;
+        cx.nontrivial = checked >= 1;
+    }
+}
+
+// ---------------------------------------------------------------------------------------
+// PA-Zip: PaZipCompressor over a SuffixArrayDictionary built from the training corpus
+
+const PZ_PRESET: [&str; 5] = ["default", "fast_compression", "high_compression", "realtime", "reference_compliant"];
+
+struct PzScenario {
+    preset: usize,
+}
+
+impl Scenario for PzScenario {
+    fn name(&self) -> String {
+        format!("pazip/{}", PZ_PRESET[self.preset])
+    }
+    fn budget(&self, tier: Tier) -> u64 {
+        // (nothing compressed with the reference preset can be read back, see known_findings: few runs)
+        match (tier, self.preset) {
+            (Tier::Quick, 4) => 200,
+            (Tier::Quick, _) => 600,
+            (Tier::Thorough, 4) => 6_000,
+            (Tier::Thorough, _) => 30_000,
+        }
+    }
+    fn run(&self, cx: &mut Run) {
+        zsim_core::hooks::reset();
+        let cfg = cx.src.chan("cfg");
+        let tk = cfg.below(7) as usize;
+        // (building the DFA cache of a dictionary costs ~0.1 s per 1000 B of corpus: long corpora are rare)
+        let tlen = *cfg.pick(&[300usize, 64, 500, 8, 100, 150]);
+        let tlen = if cfg.chance(1, 50) { 1200 } else { tlen };
+        // rarely a dictionary of 10 000 B or more (SuffixArray::with_config leaves DC3 for an
+        // adaptively chosen construction there) or of more than 64 KiB (positions need > 16 bits)
+        let tlen = match cfg.biased_zero(5, 1, 6) {
+            _ if self.preset == 4 => tlen,
+            0 => tlen,
+            1 => 10_000,
+            2 => 12_500,
+            3 => 100_000,
+            _ => 140_000,
+        };
+        // (the longest-match search walks the suffix range linearly where suffixes run into the end
+        // of the text: minutes per payload on a long single-symbol or short-period dictionary, which
+        // is a cost question and not this property's; long dictionaries are records / random / few)
+        let tk = if tlen >= 10_000 { [5usize, 1, 5, 4, 4, 5, 1][tk] } else { tk };
+        // (over 64 KiB only records / random: their suffix array comes from DivSufSort, which is sound,
+        // so what fails there is the 16-bit dictionary offset and not the SA-IS construction)
+        let tk = if tlen > 65_536 && tk == 1 { 5 } else { tk };
+        let tx = cfg.below(1 << 16);
+        let min_pattern_length = *cfg.pick(&[4usize, 3, 8]);
+        let min_frequency = *cfg.pick(&[4u32, 1, 2]);
+        // (with min_frequency 1 or 2 the DFA cache of a 100 000 B dictionary takes seconds to build)
+        let min_frequency = if tlen >= 10_000 { 4 } else { min_frequency };
+        let max_bfs_depth = *cfg.pick(&[6u32, 2, 3]);
+        let local = cfg.below(4);
+        let dirty_out = cfg.chance(1, 3);
+        let reload = cfg.chance(1, 2) && tlen < 10_000;
+        let planned = 3 + cfg.below(8);
+        let mut ops = cx.src.ops("ops", planned);
+        let training = corpus(tk, tlen, tx);
+        let mut config = match self.preset {
+            0 => PaZipCompressorConfig::default(),
+            1 => PaZipCompressorConfig::fast_compression(),
+            2 => PaZipCompressorConfig::high_compression(),
+            3 => PaZipCompressorConfig::realtime(),
+            _ => PaZipCompressorConfig::reference_compliant(),
+        };
+        config.local_config = match local {
+            0 => LocalMatcherConfig::default(),
+            1 => LocalMatcherConfig::fast_compression(),
+            2 => LocalMatcherConfig::max_compression(),
+            _ => LocalMatcherConfig::realtime(),
+        };
+        let dcfg = SuffixArrayDictionaryConfig { min_pattern_length, min_frequency, max_bfs_depth, ..Default::default() };
+        cx.ev(format!(
+            "PaZipCompressor preset={} local_config={} dictionary: {} x {} B ({}) min_pattern_length={} min_frequency={} max_bfs_depth={} dirty_output_buffer={}",
+            PZ_PRESET[self.preset],
+            ["default", "fast_compression", "max_compression", "realtime"][local as usize],
+            CORPUS_NAME[tk],
+            tlen,
+            head(&training),
+            min_pattern_length,
+            min_frequency,
+            max_bfs_depth,
+            dirty_out
+        ));
+        let dict = match SuffixArrayDictionary::new(&training, dcfg) {
+            Ok(d) => d,
+            Err(e) => {
+                cx.probe("dictionary_refused");
+                cx.ev(format!("SuffixArrayDictionary::new refused: {}", e));
+                return;
+            }
+        };
+        // the dictionary as it would be stored next to the compressed data and loaded again later
+        let stored = if reload {
+            match dict.serialize() {
+                Ok(b) => Some(b),
+                Err(e) => {
+                    cx.ev(format!("SuffixArrayDictionary::serialize refused: {}", e));
+                    None
+                }
+            }
+        } else {
+            None
+        };
+        let pool = match SecureMemoryPool::new(SecurePoolConfig::small_secure()) {
+            Ok(p) => p,
+            Err(e) => {
+                cx.ev(format!("SecureMemoryPool::new refused: {}", e));
+                return;
+            }
+        };
+        let mut pz = match PaZipCompressor::new(dict, config.clone(), pool.clone()) {
+            Ok(p) => p,
+            Err(e) => {
+                cx.probe("create_refused");
+                cx.ev(format!("PaZipCompressor::new refused: {}", e));
+                return;
+            }
+        };
+        // a second handle: a clone, or a compressor over the reloaded dictionary
+        let mut twin: Option<(PaZipCompressor, &'static str)> = None;
+        let mut outs: Vec<Out> = vec![];
+        let mut checked = 0u64;
+        let mut n_ops = 0u64;
+        while let Some(o) = ops.next() {
+            n_ops += 1;
+            // (index, when, decode through the twin?)
+            let mut to_check: Option<(usize, &str, bool)> = None;
+            match o[0] % 8 {
+                0 | 1 | 2 | 3 => {
+                    let id = outs.len() as u64;
+                    let by_twin = twin.is_some() && (o[0] / 8) % 3 == 0;
+                    // (over a long dictionary every other payload is a slice of it, taken anywhere)
+                    let o = if tlen >= 10_000 && (o[0] / 8) % 2 == 0 { [o[0], 9, o[2], o[3]] } else { o };
+                    let (p, kind) = pay2(o, &training, outs.last().map(|x| x.payload.as_slice()), outs.last().map(|x| x.bytes.as_slice()), 2600);
+                    let who_name = if by_twin { twin.as_ref().unwrap().1 } else { "original" };
+                    cx.ev(format!("compress p{}({} B, {}, {}) by the {}", id, p.len(), kind, head(&p), who_name));
+                    let mut bytes = Vec::new();
+                    let who = if by_twin { &mut twin.as_mut().unwrap().0 } else { &mut pz };
+                    match who.compress(&p, &mut bytes) {
+                        Ok(st) => {
+                            let path = if self.preset == 4 {
+                                "reference_encoding"
+                            } else if st.global_matches > 0 && st.local_matches > 0 {
+                                "global_and_local"
+                            } else if st.global_matches > 0 && tlen > 65_536 {
+                                "global.dictionary_over_64KiB"
+                            } else if st.global_matches > 0 && tlen >= 10_000 {
+                                "global.dictionary_of_10000B_or_more"
+                            } else if st.global_matches > 0 {
+                                "global"
+                            } else if st.local_matches > 0 {
+                                "local"
+                            } else if p.is_empty() && dirty_out {
+                                "empty_frame_into_used_buffer"
+                            } else if p.is_empty() {
+                                "empty"
+                            } else {
+                                "literal_only"
+                            };
+                            cx.probe(&format!("path_{}", path));
+                            for (i, n) in st.compression_type_usage.iter().enumerate() {
+                                if *n > 0 {
+                                    cx.probe(&format!("match_kind_{}", i));
+                                }
+                            }
+                            cx.cell(format!("pazip/{}/{}/{}/{}", PZ_PRESET[self.preset], CORPUS_NAME[tk], kind, path));
+                            cx.ev(format!("  -> Ok {} B ({}) {} literals={} local={} global={}", bytes.len(), head(&bytes), path, st.literal_count, st.local_matches, st.global_matches));
+                            outs.push(Out { id, payload: p, bytes, epoch: 0, path, algo: who_name.into(), show_bytes: true });
+                            to_check = Some((outs.len() - 1, "right away", by_twin));
+                        }
+                        Err(e) => {
+                            cx.probe("compress_refused");
+                            cx.ev(format!("  -> refused: {}", e));
+                        }
+                    }
+                }
+                4 | 5 => {
+                    if !outs.is_empty() {
+                        let through_twin = twin.is_some() && o[2] % 2 == 1;
+                        to_check = Some(((o[1] as usize) % outs.len(), "later", through_twin));
+                    }
+                }
+                // (no second handle on a long dictionary: cloning its DFA-cache trie takes half a minute)
+                6 if tlen >= 10_000 => cx.ev("second handle: skipped for a long dictionary"),
+                6 => {
+                    twin = None;
+                    if let (Some(b), true) = (&stored, o[1] % 2 == 0) {
+                        match SuffixArrayDictionary::deserialize(b).and_then(|d| PaZipCompressor::new(d, config.clone(), pool.clone())) {
+                            Ok(t) => {
+                                twin = Some((t, "compressor over the reloaded dictionary"));
+                                cx.probe("reload_dictionary");
+                                cx.ev(format!("second handle: PaZipCompressor over SuffixArrayDictionary::deserialize(serialize()) ({} B stored)", b.len()));
+                            }
+                            Err(e) => cx.ev(format!("SuffixArrayDictionary::deserialize / PaZipCompressor::new refused: {}", e)),
+                        }
+                    }
+                    if twin.is_none() {
+                        twin = Some((pz.clone(), "clone"));
+                        cx.probe("clone");
+                        cx.ev("second handle: clone of the compressor");
+                    }
+                }
+                _ => {
+                    pz.reset_stats();
+                    let v = pz.validate();
+                    cx.ev(format!("reset_stats; validate -> {}", if v.is_ok() { "Ok" } else { "Err" }));
+                }
+            }
+            if let Some((idx, when, through_twin)) = to_check {
+                let mut out = if dirty_out { b"stale bytes of an earlier call".to_vec() } else { Vec::new() };
+                let who_name = if through_twin { twin.as_ref().unwrap().1 } else { "original" };
+                let who = if through_twin { &mut twin.as_mut().unwrap().0 } else { &mut pz };
+                let r = who.decompress(&outs[idx].bytes, &mut out).map(|()| out).map_err(|e| e.to_string());
+                checked += 1;
+                // the same handle compressed and decodes: the property as stated; another handle
+                // (clone / reloaded dictionary): kept apart
+                let class = if outs[idx].algo == who_name { None } else { Some("roundtrip_other_handle") };
+                let front = if class.is_none() { "PaZipCompressor".to_string() } else { format!("PaZipCompressor.{}_decodes_{}", who_name.split(' ').last().unwrap_or("x"), outs[idx].algo.split(' ').last().unwrap_or("x")) };
+                if !report_as(cx, &front, &outs[idx], 0, who_name, &r, &format!("{} through the {}", when, who_name), class) {
+                    break;
+                }
+            }
+        }
+        cx.steps = n_ops;
+        cx.nontrivial = checked >= 1;
+    }
+}
+
+// ---------------------------------------------------------------------------------------
+// PA-Zip match codec: encode_matches / decode_match / decode_matches over all eight match kinds
+
+struct MatchCodecScenario;
+
+fn pz_match(o: [u64; 4]) -> Option<(PzMatch, &'static str)> {
+    let a = o[1] as usize;
+    let b = o[2] as usize;
+    let r = match o[0] % 8 {
+        0 => (PzMatch::literal([1u8, 2, 31, 32, 16][a % 5]), "Literal"),
+        1 => (PzMatch::global([0u32, 1, 255, 256, 65535, 65536, 0x8000_0000, 0xFFFF_FFFF][a % 8], [6u16, 7, 255, 256, 65535][b % 5]), "Global"),
+        2 => (PzMatch::rle(o[3] as u8, [2u8, 3, 32, 33][a % 4]), "RLE"),
+        3 => (PzMatch::near_short([2u8, 9, 5][a % 3], [2u8, 5, 3][b % 3]), "NearShort"),
+        4 => (PzMatch::far1_short([2u16, 257, 10, 256, 255][a % 5], [2u8, 33, 17][b % 3]), "Far1Short"),
+        5 => (PzMatch::far2_short([258u32, 65793, 65535, 65536, 259, 65792][a % 6], [2u8, 33, 17][b % 3]), "Far2Short"),
+        6 => (PzMatch::far2_long([0u16, 1, 65535, 300, 256][a % 5], [34u16, 35, 161, 162, 163, 32801, 32802, 65535][b % 8]), "Far2Long"),
+        _ => (PzMatch::far3_long([0u32, 1, 65536, 0xFF_FFFF, 0x80_0000][a % 5], [34u32, 161, 162, 32801, 32802, 100_000, (1 << 30) + 32768 + 33][b % 7]), "Far3Long"),
+    };
+    match r {
+        (Ok(m), k) => Some((m, k)),
+        (Err(_), _) => None,
+    }
+}
+
+impl Scenario for MatchCodecScenario {
+    fn name(&self) -> String {
+        "pazip-matchcodec/lists".into()
+    }
+    fn budget(&self, tier: Tier) -> u64 {
+        match tier {
+            Tier::Quick => 3000,
+            Tier::Thorough => 150_000,
+        }
+    }
+    fn run(&self, cx: &mut Run) {
+        let cfg = cx.src.chan("cfg");
+        let planned = 1 + cfg.below(8);
+        let mut ops = cx.src.ops("ops", planned);
+        let mut ms: Vec<PzMatch> = vec![];
+        let mut kinds: Vec<&'static str> = vec![];
+        while let Some(o) = ops.next() {
+            match pz_match(o) {
+                Some((m, k)) => {
+                    cx.ev(format!("match #{}: {}", ms.len(), m));
+                    cx.cell(format!("matchcodec/{}", k));
+                    ms.push(m);
+                    kinds.push(k);
+                }
+                None => cx.ev("constructor refused the parameters"),
+            }
+        }
+        cx.steps = ms.len() as u64;
+        if ms.is_empty() {
+            return;
+        }
+        let (buf, bits) = match encode_matches(&ms) {
+            Ok(x) => x,
+            Err(e) => {
+                cx.probe("encode_refused");
+                cx.ev(format!("encode_matches -> refused: {}", e));
+                return;
+            }
+        };
+        cx.ev(format!("encode_matches -> {} B, {} bits ({})", buf.len(), bits, head(&buf)));
+        cx.nontrivial = true;
+        // (a) one decode_match per encoded match on one reader
+        let mut reader = BitReader::new(&buf);
+        for (i, m) in ms.iter().enumerate() {
+            match decode_match(&mut reader) {
+                Ok((d, _)) if d == *m => {}
+                Ok((d, _)) => {
+                    cx.violate("roundtrip", &format!("MatchCodec.decode_match.{}.wrong_match", kinds[i]), format!("match #{} of {}: encoded {}, decoded {}", i, ms.len(), m, d));
+                    return;
+                }
+                Err(e) => {
+                    cx.violate("roundtrip", &format!("MatchCodec.decode_match.{}.err", kinds[i]), format!("match #{} of {}: encoded {}, decode_match failed: {}", i, ms.len(), m, e));
+                    return;
+                }
+            }
+        }
+        cx.ev("  decode_match x n -> equal");
+        // (b) the whole buffer
+        let pad = buf.len() * 8 - bits;
+        cx.probe(&format!("padding_bits_{}", pad));
+        match decode_matches(&buf) {
+            Ok((ds, _)) if ds == ms => cx.ev("  decode_matches -> equal"),
+            Ok((ds, _)) => {
+                let what = if ds.len() > ms.len() && ds[..ms.len()] == ms[..] { "extra_matches" } else { "wrong_matches" };
+                cx.violate(
+                    "roundtrip",
+                    &format!("MatchCodec.decode_matches.{}", what),
+                    format!("{} matches encoded into {} bits ({} padding bits), decode_matches returned {} matches; last encoded {}, last decoded {}", ms.len(), bits, pad, ds.len(), ms[ms.len() - 1], ds[ds.len() - 1]),
+                );
+            }
+            Err(e) => {
+                // three or more zero bits after the last match look like the header of a Literal
+                let site = if pad >= 3 { "MatchCodec.decode_matches.err_with_3_to_7_padding_bits" } else { "MatchCodec.decode_matches.err" };
+                cx.violate("roundtrip", site, format!("{} matches encoded into {} bits ({} padding bits), last {}; decode_matches failed: {}", ms.len(), bits, pad, ms[ms.len() - 1], e));
+            }
+        }
+    }
+}
+
+// ---------------------------------------------------------------------------------------
+// FSE stage of PA-Zip: apply/remove (raw marker "UN" vs "FS"), the stateful FseCompressor, the
+// reference zip/unzip pair
+
+struct FseScenario;
+
+/// The FSE coder itself (src/entropy/fse.rs, not one of C02's files) does not invert itself on
+/// quite a few inputs of 100 B and more.  The FSE *stage* of PA-Zip (compression_types.rs: the
+/// "UN"/"FS" markers, the per-call FseCompressor) can only be as good as the coder, so every
+/// payload that fails is also put through a fresh bare FseEncoder/FseDecoder pair with the same
+/// settings: when that pair does not return the payload either, the finding is labelled
+/// `coder_fails` (a known defect outside C02's files); a frame that the bare coder would have
+/// got right and the stage gets wrong keeps the plain site.
+fn bare_coder_roundtrips(c: &FseConfig, p: &[u8]) -> bool {
+    let ec = zipora::entropy::FseConfig {
+        max_symbol: c.max_symbol,
+        table_log: c.table_log,
+        adaptive: c.adaptive,
+        compression_level: c.compression_level,
+        fast_decode: c.fast_decode,
+        hardware: zipora::entropy::fse::HardwareCapabilities::default(),
+        parallel_blocks: None,
+        entropy_optimization: true,
+        block_size: 64 * 1024,
+        advanced_states: false,
+        min_frequency: 1,
+        max_table_size: 64 * 1024,
+        dict_size: 0,
+    };
+    let (Ok(mut e), Ok(mut d)) = (zipora::entropy::FseEncoder::new(ec.clone()), zipora::entropy::FseDecoder::with_config(ec)) else { return false };
+    match e.compress(p) {
+        Ok(z) => matches!(d.decompress(&z), Ok(b) if b == p),
+        Err(_) => false,
+    }
+}
+
+fn fse_flavor(c: &FseConfig, o: &mut Out, got: &Result<Vec<u8>, String>) {
+    let ok = matches!(got, Ok(b) if *b == o.payload);
+    if !ok && !o.payload.is_empty() && !bare_coder_roundtrips(c, &o.payload) {
+        o.path = match o.path {
+            "fse_marker" => "fse_marker.coder_fails",
+            "reference" => "reference.coder_fails",
+            "object_first_call" => "object_first_call.coder_fails",
+            "object_later_call" => "object_later_call.coder_fails",
+            p => p,
+        };
+    }
+}
+
+impl Scenario for FseScenario {
+    fn name(&self) -> String {
+        "pazip-fse/stage".into()
+    }
+    fn budget(&self, tier: Tier) -> u64 {
+        match tier {
+            Tier::Quick => 1500,
+            Tier::Thorough => 60_000,
+        }
+    }
+    fn run(&self, cx: &mut Run) {
+        let cfg = cx.src.chan("cfg");
+        let which = cfg.below(3);
+        let planned = 2 + cfg.below(8);
+        let mut ops = cx.src.ops("ops", planned);
+        let config = match which {
+            0 => FseConfig::default(),
+            1 => FseConfig::for_pa_zip(),
+            _ => FseConfig::fast_pa_zip(),
+        };
+        let cname = ["default", "for_pa_zip", "fast_pa_zip"][which as usize];
+        cx.ev(format!("FseConfig::{}", cname));
+        let mut obj = match FseCompressor::with_config(config.clone()) {
+            Ok(c) => c,
+            Err(e) => {
+                cx.ev(format!("FseCompressor::with_config refused: {}", e));
+                return;
+            }
+        };
+        let training = corpus(0, 300, 0);
+        let mut outs: Vec<Out> = vec![];
+        let mut checked = 0u64;
+        let mut n_ops = 0u64;
+        let mut calls_since_reset = 0u64;
+        while let Some(o) = ops.next() {
+            n_ops += 1;
+            let api = o[0] % 8;
+            if api == 7 {
+                calls_since_reset = 0;
+                let r = obj.reset();
+                cx.ev(format!("FseCompressor.reset -> {}", if r.is_ok() { "Ok" } else { "Err" }));
+                continue;
+            }
+            if api == 6 {
+                // decode an earlier FseCompressor output again on the same object
+                let cands: Vec<usize> = (0..outs.len()).filter(|&i| outs[i].path.starts_with("object")).collect();
+                if !cands.is_empty() {
+                    let idx = cands[(o[1] as usize) % cands.len()];
+                    let r = obj.decompress(&outs[idx].bytes).map_err(|e| e.to_string());
+                    checked += 1;
+                    fse_flavor(&config, &mut outs[idx], &r);
+                    if !report(cx, "FseCompressor", &outs[idx], 0, cname, &r, "later") {
+                        break;
+                    }
+                }
+                continue;
+            }
+            let id = outs.len() as u64;
+            let (p, kind) = pay2(o, &training, outs.last().map(|x| x.payload.as_slice()), outs.last().map(|x| x.bytes.as_slice()), 70_000);
+            match api {
+                0 | 1 | 2 => {
+                    cx.ev(format!("apply_fse_compression p{}({} B, {}, {})", id, p.len(), kind, head(&p)));
+                    match apply_fse_compression(&p, &config) {
+                        Ok(bytes) => {
+                            let path = if bytes.starts_with(&[0x55, 0x4E]) {
+                                "raw_marker"
+                            } else if bytes.starts_with(&[0xFE, 0x53]) {
+                                "fse_marker"
+                            } else if bytes.is_empty() {
+                                "empty"
+                            } else {
+                                "no_marker"
+                            };
+                            cx.probe(&format!("path_{}", path));
+                            cx.cell(format!("fse/apply/{}/{}", kind, path));
+                            cx.ev(format!("  -> Ok {} B ({}) {}", bytes.len(), head(&bytes), path));
+                            outs.push(Out { id, payload: p, bytes, epoch: 0, path, algo: cname.into(), show_bytes: true });
+                            let r = remove_fse_compression(&outs[id as usize].bytes, &config).map_err(|e| e.to_string());
+                            checked += 1;
+                            fse_flavor(&config, &mut outs[id as usize], &r);
+                            if !report(cx, "FseStage.apply_remove", &outs[id as usize], 0, cname, &r, "right away") {
+                                break;
+                            }
+                        }
+                        Err(e) => {
+                            cx.probe("compress_refused");
+                            cx.ev(format!("  -> refused: {}", e));
+                        }
+                    }
+                }
+                3 | 4 => {
+                    cx.ev(format!("FseCompressor.compress p{}({} B, {}, {})", id, p.len(), kind, head(&p)));
+                    match obj.compress(&p) {
+                        Ok(bytes) => {
+                            cx.cell(format!("fse/object/{}", kind));
+                            cx.ev(format!("  -> Ok {} B ({})", bytes.len(), head(&bytes)));
+                            // the encoder inside the object keeps its table (non-adaptive presets) or
+                            // its symbol counts (adaptive ones) from call to call
+                            let path = if calls_since_reset == 0 { "object_first_call" } else { "object_later_call" };
+                            calls_since_reset += 1;
+                            outs.push(Out { id, payload: p, bytes, epoch: 0, path, algo: cname.into(), show_bytes: true });
+                            let r = obj.decompress(&outs[id as usize].bytes).map_err(|e| e.to_string());
+                            checked += 1;
+                            fse_flavor(&config, &mut outs[id as usize], &r);
+                            if !report(cx, "FseCompressor", &outs[id as usize], 0, cname, &r, "right away") {
+                                break;
+                            }
+                        }
+                        Err(e) => {
+                            cx.probe("compress_refused");
+                            cx.ev(format!("  -> refused: {}", e));
+                        }
+                    }
+                }
+                _ => {
+                    cx.ev(format!("fse_zip_reference p{}({} B, {}, {})", id, p.len(), kind, head(&p)));
+                    let mut buf = vec![0u8; p.len() + 16];
+                    let mut n = 0usize;
+                    match fse_zip_reference(&p, &mut buf, &mut n) {
+                        Ok(true) => {
+                            buf.truncate(n);
+                            cx.ev(format!("  -> true, {} B ({})", n, head(&buf)));
+                            cx.probe("zip_reference_beneficial");
+                            outs.push(Out { id, payload: p, bytes: buf, epoch: 0, path: "reference", algo: "for_pa_zip".into(), show_bytes: true });
+                            let mut ob = vec![0u8; outs[id as usize].payload.len() + 16];
+                            let r = fse_unzip_reference(&outs[id as usize].bytes, &mut ob)
+                                .map(|k| {
+                                    ob.truncate(k);
+                                    ob
+                                })
+                                .map_err(|e| e.to_string());
+                            checked += 1;
+                            fse_flavor(&FseConfig::for_pa_zip(), &mut outs[id as usize], &r);
+                            if !report(cx, "FseStage.zip_unzip_reference", &outs[id as usize], 0, "for_pa_zip", &r, "right away") {
+                                break;
+                            }
+                        }
+                        Ok(false) => cx.ev("  -> false (not beneficial)"),
+                        Err(e) => cx.ev(format!("  -> refused: {}", e)),
+                    }
+                }
+            }
+        }
+        cx.steps = n_ops;
+        cx.nontrivial = checked >= 1;
+    }
+}
+
+// ---------------------------------------------------------------------------------------
+// SimdLz77Compressor's own compress/decompress (not the Compressor-trait impl the factory hands out)
+
+struct SimdScenario;
+
+impl Scenario for SimdScenario {
+    fn name(&self) -> String {
+        "simdlz77/inherent".into()
+    }
+    fn budget(&self, tier: Tier) -> u64 {
+        match tier {
+            Tier::Quick => 200,
+            Tier::Thorough => 6_000,
+        }
+    }
+    fn run(&self, cx: &mut Run) {
+        zsim_core::hooks::reset();
+        let cfg = cx.src.chan("cfg");
+        let which = cfg.below(5);
+        let planned = 2 + cfg.below(5);
+        let mut ops = cx.src.ops("ops", planned);
+        let cname = ["default", "high_performance", "low_latency", "maximum_parallelism", "global"][which as usize];
+        cx.ev(format!("SimdLz77Compressor {}", cname));
+        let mut own = match which {
+            0 => SimdLz77Compressor::new().ok(),
+            1 => SimdLz77Compressor::with_config(SimdLz77Config::high_performance()).ok(),
+            2 => SimdLz77Compressor::with_config(SimdLz77Config::low_latency()).ok(),
+            3 => SimdLz77Compressor::with_config(SimdLz77Config::maximum_parallelism()).ok(),
+            _ => None,
+        };
+        if which < 4 && own.is_none() {
+            cx.ev("constructor refused");
+            return;
+        }
+        let training = corpus(0, 300, 0);
+        let mut outs: Vec<Out> = vec![];
+        let mut checked = 0u64;
+        let mut n_ops = 0u64;
+        while let Some(o) = ops.next() {
+            n_ops += 1;
+            let id = outs.len() as u64;
+            let (p, kind) = pay2(o, &training, outs.last().map(|x| x.payload.as_slice()), None, 1200);
+            // (the match search of this compressor is quadratic)
+            let p = if p.len() > 400 { p[..400].to_vec() } else { p };
+            cx.ev(format!("compress p{}({} B, {}, {})", id, p.len(), kind, head(&p)));
+            let r = match own.as_mut() {
+                Some(c) => c.compress(&p),
+                None => compress_with_simd_lz77(&p),
+            };
+            match r {
+                Ok(bytes) => {
+                    cx.ev(format!("  -> Ok {} B ({})", bytes.len(), head(&bytes)));
+                    outs.push(Out { id, payload: p, bytes, epoch: 0, path: "inherent", algo: cname.into(), show_bytes: true });
+                    let r = match own.as_mut() {
+                        Some(c) => c.decompress(&outs[id as usize].bytes),
+                        None => decompress_with_simd_lz77(&outs[id as usize].bytes),
+                    }
+                    .map_err(|e| e.to_string());
+                    checked += 1;
+                    if !report(cx, "SimdLz77Compressor", &outs[id as usize], 0, cname, &r, "right away") {
+                        break;
+                    }
+                }
+                Err(e) => {
+                    cx.probe("compress_refused");
+                    cx.ev(format!("  -> refused: {}", e));
+                }
+            }
+        }
+        cx.steps = n_ops;
+        cx.nontrivial = checked >= 1;
+    }
+}
+
+
 fn main() {
     let mut spec = CheckSpec::new(
         "C02",
         "exploration",
-        "seeded client histories (compress, compress_with_deadline, compress_batch, decompress of any earlier output, set_mode / set_algorithm, train) against \
-         RealtimeCompressor (tokio paused clock; clock jumps at seeded reads of the shimmed Instant) and AdaptiveCompressor; payloads are workload, not search space; \
-         non-trivial = at least one compress call returned Ok and its output was decoded and compared; distinct = distinct hash of (operations, observed results, clock jumps)",
+        "seeded client histories (compress, compress_with_deadline, compress_batch, decompress of any earlier output, set_mode / set_algorithm, train, estimate_ratio through the Compressor trait object) against \
+         RealtimeCompressor (tokio paused clock; clock jumps at seeded reads of the shimmed Instant) and AdaptiveCompressor; seeded histories of compress / decompress-now / decompress-later against every \
+         compressor of CompressorFactory (training corpus x payload relations: same again, one byte changed, corpus slice, corpus plus a foreign byte, an earlier output as payload, boundary lengths), \
+         PaZipCompressor (five presets, second handle by clone or by a stored-and-reloaded dictionary, dictionaries up to 140 000 B), the PA-Zip match codec, the PA-Zip FSE stage and SimdLz77Compressor's own methods; \
+         payloads are workload, not search space; non-trivial = at least one compress call returned Ok and its output was decoded and compared; distinct = distinct hash of (operations, observed results, clock jumps)",
     );
     spec.assumptions = vec![
-        "only the front ends whose output depends on clock reads or on call history are decided here (RealtimeCompressor, AdaptiveCompressor); the per-algorithm codecs, HybridCompressor's raw fallback and PA-Zip are functions of the payload alone and are not searched".into(),
-        "payload bytes 2..4 are zero so that an unframed payload handed to an LZ4/zstd decoder claims at most 64 KiB".into(),
+        "RealtimeCompressor / AdaptiveCompressor: payload bytes 2..4 are zero so that an unframed payload handed to an LZ4/zstd decoder claims at most 64 KiB (the factory / PA-Zip scenarios have no such reserved bytes)".into(),
         "the semaphore of RealtimeCompressor is never contended on a current_thread runtime: no await happens while a permit is held".into(),
-        "AdaptiveCompressor reads std::time::Instant (not shimmed); its measurements only feed a log line, never the output".into(),
+        "AdaptiveCompressor reads std::time::Instant (not shimmed); its measurements only feed a log line and CompressionProfile::preferred_algorithm, never the output: profiles are read but not acted upon".into(),
+        "a compress call that answers Err is a refusal, not a violation (trained codecs refuse symbols they have not seen); in half of the runs of a trained codec the payloads are projected onto the corpus' alphabet".into(),
+        "decode through another handle (clone, compressor over the reloaded dictionary) is reported under its own class roundtrip_other_handle".into(),
+        "PA-Zip dictionaries of 10 000 B and more are records / random / 3-symbol corpora with the default min_frequency, are not cloned or reloaded, and payloads stay below 2.6 KiB there (the match search and the trie clone are minutes on long repetitive dictionaries: cost, not this property)".into(),
+        "the FSE coder under the PA-Zip FSE stage is src/entropy/fse.rs (another property's file): a stage failure is labelled coder_fails when a bare FseEncoder/FseDecoder pair fails on the same payload".into(),
     ];
     spec.components = vec![
-        ("compression::realtime::RealtimeCompressor", "real"),
-        ("compression::adaptive::AdaptiveCompressor", "real"),
-        ("compression::{NoCompressor,Lz4Compressor,ZstdCompressor,SimdLz77Compressor (Compressor impl)}", "real"),
+        ("compression::realtime::RealtimeCompressor (+ Builder, with_mode)", "real"),
+        ("compression::adaptive::AdaptiveCompressor (inherent and as dyn Compressor)", "real"),
+        ("compression::{CompressorFactory, NoCompressor, Lz4Compressor, ZstdCompressor, HuffmanCompressor, RansCompressor, DictCompressor, HybridCompressor, SimdLz77Compressor (Compressor impl)}", "real"),
+        ("compression::dict_zip::{PaZipCompressor, SuffixArrayDictionary (new / serialize / deserialize), LocalMatcherConfig presets}", "real"),
+        ("compression::dict_zip::compression_types::{encode_matches, decode_match, decode_matches, apply/remove_fse_compression, FseCompressor, fse_zip/unzip_reference}", "real"),
+        ("compression::simd_lz77::SimdLz77Compressor (inherent compress / decompress, global instance)", "real"),
         ("clock (zipora::verif::time::Instant)", "simulated: tokio paused clock + seeded monotone skew"),
         ("tokio runtime", "real, current_thread, start_paused"),
     ];
@@ -734,5 +1962,19 @@ fn main() {
     }
     spec.scenarios.push(Box::new(AdScenario { switch: false }));
     spec.scenarios.push(Box::new(AdScenario { switch: true }));
+    for algo in [FAlgo::None, FAlgo::Lz4, FAlgo::Zstd, FAlgo::Huffman, FAlgo::Rans, FAlgo::Dictionary, FAlgo::SimdLz77, FAlgo::Hybrid] {
+        if algo == FAlgo::Lz4 && !lz4_available() {
+            continue;
+        }
+        spec.scenarios.push(Box::new(FactoryScenario { algo, compressible: false }));
+    }
+    spec.scenarios.push(Box::new(FactoryScenario { algo: FAlgo::Hybrid, compressible: true }));
+    spec.scenarios.push(Box::new(FactoryScenario { algo: FAlgo::SelectBest, compressible: false }));
+    for preset in 0..PZ_PRESET.len() {
+        spec.scenarios.push(Box::new(PzScenario { preset }));
+    }
+    spec.scenarios.push(Box::new(MatchCodecScenario));
+    spec.scenarios.push(Box::new(FseScenario));
+    spec.scenarios.push(Box::new(SimdScenario));
     zsim_core::driver::main(spec);
 }
